@@ -55,4 +55,57 @@ CHECKS = {
         level_text="Structured mutation fuzzing against a three-valued reference classifier: success iff well-formed (value and n compared), error iff malformed, no panic/fault/worker death, TotalAlloc delta <= 1 MiB + K(T)*len(input), input buffer unmodified. Worker deaths are replayed from a one-case journal.",
         level_note="'Time proportional to input' is only decided as termination (driver timeout); allocation is measured with GC off in a single goroutine after a warm-up use of the type; native coverage-guided fuzzing is a separate thorough-tier step.",
     ),
+    "C09": dict(
+        test="TestC09",
+        quick=dict(procs=6, checks=2500),
+        thorough=dict(procs=32, checks=15000, timeout=1500),
+        rule="rapid draws (type with ~55% required fields, ids from the boundary set around presence-set word edges and index growth; value with zeroed required fields; message with required fields dropped or retyped at any nesting level; "
+             "0-3 earlier decodes using the same ids); non-trivial = a required id >=64 or adjacent to a 64-bit word boundary or a required field in a nested struct, and >=1 required field dropped/retyped; distinct by hash(type signature, message)",
+        technique="property-based testing (rapid): schema-aware message mutation (drop/retype required fields), reference-decoder verdict on the error kind and the named field; encoder output parsed for required ids",
+        level_text="Generated types/messages; the decode verdict (success vs INVALID_DATA naming a field that is really missing) is compared with the reference decoder after preceding decodes that set the same presence bits; the encoder's output is parsed and every required id must be present with its declared wire type at every struct level.",
+        level_note="Which missing field is named is left open when several are missing; trusts the reference decoder.",
+    ),
+    "C10": dict(
+        test="TestC10",
+        quick=dict(procs=6, checks=2500),
+        thorough=dict(procs=32, checks=15000, timeout=1500),
+        rule="rapid draws: 80% named generated types that declare or reach InitDefault (both body styles; curated DefW/DefF/DefH/DefNest and ~30 random per universe), values rewritten so optional fields equal / nearly equal (sign-flipped zero, nil vs empty binary) their declared default; "
+             "decode side: message with optional fields dropped, fresh or pre-filled destination; non-trivial = type declares defaults with >=1 optional field equal and >=1 different from its default, or the decode creates a nested defaulted struct; distinct by hash(type, output, message)",
+        technique="property-based testing (rapid): per-field presence oracle from the omission rule (three-valued for float equality), reference-decoder comparison of defaults in decoder-created structs",
+        level_text="Generated values around declared defaults: the set of field ids present in the encoder's output is compared, per struct level, with the omission rule (Emit/Omit/Either); decoding into fresh and pre-filled destinations is compared with the reference decoder (declared defaults in created structs, prior contents kept at top level, optional pointers non-nil iff transmitted).",
+        level_note="Float 'equal' is accepted both as IEEE == and as bit equality; named types come from generated source (one universe per seed).",
+    ),
+    "C11": dict(
+        test="TestC11",
+        quick=dict(procs=6, checks=2500),
+        thorough=dict(procs=32, checks=15000, timeout=1500),
+        rule="rapid draws: (older type T with holders at every struct level, newer schema N = T + added fields of 17 foreign shapes + retyped non-required fields, value of N, shuffled wire order) or (any type incl. named holder types, wire edits inserting/retyping/renumbering fields); "
+             "non-trivial = >=2 unknown fields retained, or >=1 retained inside a nested struct; distinct by hash(T, message)",
+        technique="property-based testing (rapid): schema-evolution pair generator, holder bytes vs reference parser extents, re-encode vs reference encoder, second-hop decode with the writer's schema",
+        level_text="Generated (old reader, new writer) pairs: after decode every holder must equal the concatenation of the raw unknown fields in message order (reference decoder), EncodedSize/EncodeObject must re-emit them (reference encoder, canonical equality), and decoding the re-encoding with the writer's schema must give back the writer's value.",
+        level_note="Second hop uses the reference decoder for N; nil/empty differences introduced by the intermediary's normalisation are ignored.",
+    ),
+    "C12": dict(
+        test="TestC12",
+        quick=dict(procs=6, checks=800),
+        thorough=dict(procs=32, checks=5000, timeout=1500),
+        no_universe=True,
+        rule="rapid draws: one schema (ids over the whole range, annotation depth <=4, list vs set, enum vs i64 on the same Go type) rendered as 3-6 Go types differing in carrier tag (frugal / thrift / both with a contradicting thrift tag), omitted requiredness/annotation, byte vs i8, pkg-qualified names, spaces, declaration order and ignored fields (untagged, unexported-with-tag, embedded-with-tag, embedded struct declaring its own holder); "
+             "non-trivial = >=2 spelling dimensions differ and the schema has a nested annotation or an enum; distinct by hash(schema, canonical output)",
+        technique="property-based testing (rapid): metamorphic relation across equivalent tag spellings plus reference-model encoding of the AST the tags were rendered from; harness-side independent tag parser validates every rendered tag",
+        level_text="Metamorphic: every spelling of the same schema must encode a random value to the reference encoding of that schema and decode a message identically; ignored fields keep sentinels through encode and decode. The harness's own tag parser re-derives (id, requiredness, annotation, options) from each rendered tag and must agree with the AST before a case counts.",
+        level_note="Only spellings the documentation and thriftgo output establish as equivalent are generated; Go type names used as scalar annotations and similar accepted-but-undocumented forms are neither required nor forbidden.",
+    ),
+    "C13": dict(
+        test="TestC13",
+        quick=dict(procs=6, checks=1200),
+        thorough=dict(procs=32, checks=6000, timeout=1500),
+        no_universe=True,
+        rule="enumerated invalid classes (~190: unsupported Go kinds, slice without annotation, contradicting / syntactically broken annotations, invalid map keys, non-struct pointers as elements/values/non-optional fields, pointer to pointer/container, bad ids, requiredness, options) x field position x 0-3 enclosing levels "
+             "(pointer, by value, list, set, map value, map key, nested list) x histories of 2-8 calls over the invalid type, its enclosing types and a valid type sharing a nested type; plus argument kinds (nil, non-struct, pointer to non-struct, **S) and histories over 36 recursive named clusters A->*B->{*A,*C invalid}; "
+             "non-trivial = invalid construct >=1 level below the argument type, or a cluster history of >=3 calls, or an argument case; distinct by hash(class, position, wraps, history)",
+        technique="property-based testing (rapid): enumerated invalid-definition classes instantiated by reflect.StructOf at drawn positions, stateful call histories with a rejection oracle (error/n=0/untouched buffer and destination, ordinary panic for EncodedSize, same verdict on repetition)",
+        level_text="Each invalid class is instantiated at random positions and nesting levels and exercised through all three entry points in random order, repeatedly and interleaved with valid types: EncodeObject/DecodeObject must return an error with n=0 leaving buffer and destination untouched, EncodedSize must panic without a memory fault, verdicts must repeat, enclosing types must be rejected too and valid neighbours keep round-tripping.",
+        level_note="Classes are limited to definitions the property lists; forms frugal accepts although undocumented (Go type name as scalar annotation, *[]byte) are not asserted either way. Recursive clusters are single-use per process because descriptor caches never forget a type.",
+    ),
 }
